@@ -3,9 +3,13 @@
 // Contracts for package lisperror, read by /verif's VC generator (govc). Comment-only.
 package lisperror
 
+// the position a form carries (lists, vectors, symbols, maps, sets; nil has none)
+//@ spec posKind(x types.MalType) bool = x == nil || is(x, types.List) || is(x, types.Symbol) || is(x, types.Vector) || is(x, types.HashMap) || is(x, types.Set)
+//@ spec posOfForm(x types.MalType) *types.Position = ite(is(x, types.List), x.(types.List).Cursor, ite(is(x, types.Symbol), x.(types.Symbol).Cursor, ite(is(x, types.Vector), x.(types.Vector).Cursor, ite(is(x, types.HashMap), x.(types.HashMap).Cursor, ite(is(x, types.Set), x.(types.Set).Cursor, nil)))))
 //@ func GetPosition(ast) (r)
 //@   panics never
 //@   pure
+//@   ensures implies(posKind(ast), r == posOfForm(ast)) @C17
 
 // the object an error carries to a catch clause: the wrapped value of a LispError, else the error itself
 //@ spec thrownOf(e types.MalType) types.MalType = ite(is(e, LispError), e.(LispError).err, e)
@@ -14,6 +18,8 @@ package lisperror
 //@   panics never
 //@   pure
 //@   ensures r.err == thrownOf(err)
+//@   ensures implies(is(err, LispError) && err.(LispError).cursor != nil, r.cursor == err.(LispError).cursor) @C17
+//@   ensures implies(!(is(err, LispError) && err.(LispError).cursor != nil) && posKind(ast), r.cursor == posOfForm(ast)) @C17
 
 //@ func (LispError).ErrorValue(e) (r)
 //@   panics never
